@@ -82,6 +82,8 @@ def run(tier="quick"):
     nins = LR.check_insert_effects(chk, prog, "dlinked_list.c", True, only=names) + LR.check_insert_effects(chk, prog, "linked_list.c", False, only=names)
     nrev = sum(LR.check_reverse(chk, prog, u, u == "dlinked_list.c") for u in ("linked_list.c", "dlinked_list.c"))
     nlen = sum(LR.check_len_on_remove(chk, prog, u, only=names) for u in ("linked_list.c", "dlinked_list.c"))
+    nbal = sum(LR.check_len_balance(chk, prog, u, only=names) for u in ("linked_list.c", "dlinked_list.c"))
+    chk.count("len_balance_functions", nbal, floor=1)
     nbl = LR.check_dup_backlinks(chk, prog, only={f.name for f in LR.iface_functions(prog, "list", with_parent=True)})
     chk.count("dlinked_dup_functions", nbl, floor=1)
     nit = LR.check_iterators(chk, prog)
